@@ -255,3 +255,49 @@ pub broadcast proof fn axiom_as_bytes_string_mut_ref(c: &mut String)
         #[trigger] as_bytes_view::<&mut String>(c) == vstd::utf8::encode_utf8((*old(c))@),
 {
 }
+
+/// `AsRef::as_ref`: relation between a value and the reference it converts to
+pub uninterp spec fn asref_rel<S: core::marker::PointeeSized, T: core::marker::PointeeSized>(s: &S, t: &T) -> bool;
+
+#[verifier::external_trait_specification]
+pub trait ExAsRef<T: core::marker::PointeeSized>: core::marker::PointeeSized {
+    type ExternalTraitSpecificationFor: core::convert::AsRef<T>;
+
+    fn as_ref(&self) -> (r: &T)
+        ensures
+            asref_rel::<Self, T>(self, r),
+    ;
+}
+
+/// for `AsRef<Path>`: the resulting `&Path` designates the same path as the value (`arp`)
+#[verifier::external_body]
+pub broadcast proof fn axiom_asref_path<S>(s: &S, t: &std::path::Path)
+    requires
+        #[trigger] asref_rel::<S, std::path::Path>(s, t),
+    ensures
+        pv(t) == arp::<&S>(s),
+{
+}
+
+pub uninterp spec fn md_len(m: &std::fs::Metadata) -> u64;
+
+/// fs::metadata: the length is the number of bytes of the file (A3)
+pub assume_specification<Q: core::convert::AsRef<std::path::Path>>[ std::fs::metadata::<Q> ](path: Q) -> (r: std::io::Result<std::fs::Metadata>)
+    ensures
+        r.is_ok() ==> fs_exists(arp(path)) && md_len(&r->Ok_0) as nat == fs_bytes(arp(path)).len(),
+        (os_ok() && fs_exists(arp(path))) ==> r.is_ok(),
+;
+
+pub assume_specification[ std::fs::Metadata::len ](m: &std::fs::Metadata) -> (r: u64)
+    ensures
+        r == md_len(m),
+;
+
+/// the path an OS-string-like value designates (`PathBuf::from(&T)`)
+pub uninterp spec fn os_path<T: ?Sized>(s: &T) -> PathV;
+pub open spec fn sb_path(s: &str) -> PathV { os_path::<str>(s) }
+
+pub assume_specification<'a, T: ?Sized + core::convert::AsRef<std::ffi::OsStr>>[ <std::path::PathBuf as core::convert::From<&'a T>>::from ](s: &T) -> (r: std::path::PathBuf)
+    ensures
+        pbv(&r) == os_path::<T>(s),
+;
